@@ -361,6 +361,11 @@ func (i *Interp) indexAddr(x, idx value) value {
 		if len(elems) == 1 {
 			return &elems[0]
 		}
+		if i.cfg.ConcretizeIndex {
+			// case split over the feasible index values (one forced decision when the path
+			// condition already fixes the index) instead of conditional loads/stores
+			return &elems[i.concreteInt(s, "slice index")]
+		}
 		return symptr{elems: elems, idx: s}
 	}
 	j := asInt64(idx)
